@@ -120,16 +120,18 @@ PROPS = {
         level='fault_enumeration', flavours=fl(['debug', 'fastrel', 'asan'], ['debug', 'fastrel', 'asan', 'valgrind']), exhaustive=True,
         rule="every root x values and every borrowed source (&[T], SerIter, Holder<&[T]>, Holder<SerIter>, nested) x 37 element types: "
              "writer failing at every byte position k in [0,len] (error and Ok(0)), flush failure, 7 short-write / Interrupted "
-             "patterns, failing+splitting writers, the no-std writer failing at every call, store(/dev/full); oracle: WriteError, "
+             "patterns, failing+splitting writers, transient faults (one write call rejected, later ones accepted), the no-std writer "
+             "failing at every call (sticky and transient), store(/dev/full); oracle: WriteError, "
              "accepted bytes are a prefix, source heap blocks registered as protected are never freed/reallocated, value unchanged",
-        floors=fl({'fault_positions': 300000, 'seq_fault_positions': 50000, 'borrowed_sources': 5}, {'fault_positions': 1000000}),
+        floors=fl({'fault_positions': 300000, 'seq_fault_positions': 50000, 'borrowed_sources': 5, 'transient_faults': 50000}, {'fault_positions': 1000000}),
         assumptions=COMMON_ASSUME + ["protected-block monitor: a dealloc of a registered block is recorded and skipped by the tracking allocator"]),
     'C14': dict(
         scale={'quick': 6, 'thorough': 10}, miri={'quick': (64, 16, 1), 'thorough': (32, 16, 1)},
         level='fault_enumeration', flavours=fl(['debug', 'fastrel', 'asan'], ['debug', 'fastrel', 'asan', 'miri']), exhaustive=True,
         rule="every root x values: 8 chunking patterns (1/2/7-byte, prime cycle, random, Interrupted interleavings) must give the same "
-             "value; reader failing at every k in [0,len) (plain and chunked) must give ReadError without panic; distinct = (root, value shape)",
-        floors=fl({'fault_positions': 150000, 'chunk_patterns': 15000}, {'fault_positions': 600000}),
+             "value; reader failing at every k in [0,len) (plain and chunked) must give ReadError without panic; large values (single "
+             "requests beyond 2^16 bytes) under 8 fragmentations at 1 B..100 kB and sampled failure positions; distinct = (root, value shape)",
+        floors=fl({'fault_positions': 150000, 'chunk_patterns': 15000, 'large_chunk_patterns': 40}, {'fault_positions': 600000}),
         assumptions=COMMON_ASSUME + ["leaks of partially built arrays on failure are by design and not judged"]),
     'C15': dict(
         scale={'quick': 6, 'thorough': 10},
